@@ -28,6 +28,63 @@ def digest_array(a):
             str(a.dtype), a.shape, a.strides, bool(a.flags.writeable))
 
 
+def sequence_stream(chk, R, tmp, n):
+    """one DLISFile used repeatedly: writes with different data dicts / structured arrays, add_channel(data=...) calls
+    in between, a failing write now and then; after every step EVERY container and array handed to the library so
+    far (also those of earlier writes) must be as the caller left it"""
+    from dliswriter import DLISFile
+    for i in range(n):
+        nrows = R.choice([3, 4])
+        df = DLISFile(set_identifier='SEQ', max_record_length=8192)
+        lf = df.add_logical_file(fh_id='H')
+        lf.add_origin('O', file_set_number=1, creation_time='2020/01/01 00:00:00')
+        inline_first = R.random() < 0.3
+        names = ['DEPTH', 'RPM']
+        owned_arrays, owned_dicts, steps = [], [], []
+
+        def arr(fill):
+            a = np.full(nrows, float(fill))
+            owned_arrays.append((a, digest_array(a)))
+            return a
+        chans = [lf.add_channel(nm, **({'data': arr(k)} if inline_first else {})) for k, nm in enumerate(names)]
+        lf.add_frame('FR', channels=chans)
+        problems = []
+
+        def check(step):
+            for k, (a, dg) in enumerate(owned_arrays):
+                if digest_array(a) != dg:
+                    problems.append(f'after {step}: array #{k} handed over earlier was altered')
+            for k, (d, snap) in enumerate(owned_dicts):
+                if [(key, id(v)) for key, v in d.items()] != snap:
+                    problems.append(f'after {step}: dict #{k} passed to an earlier write has keys '
+                                    f'{list(d)} (was {[key for key, _ in snap]}) or other values')
+        for sidx in range(R.choice([2, 3, 4])):
+            kind = R.choice(['write-dict', 'write-dict', 'write-dict-extra', 'add-channel', 'write-none', 'write-missing'])
+            if kind == 'add-channel':
+                nm = f'X{sidx}'
+                call(lf.add_channel, nm, data=arr(50 + sidx))
+                steps.append(f'add_channel({nm!r}, data=<array>) [not in a frame]')
+                check(steps[-1])
+                continue
+            if kind == 'write-none':
+                st, err = call(df.write, f'{tmp}/seq.dlis', output_chunk_size=2**20)
+                steps.append(f'write() -> {st}')
+            else:
+                d = {nm: arr(100 * (sidx + 1) + k) for k, nm in enumerate(names)}
+                if kind == 'write-dict-extra':
+                    d[f'EXTRA{sidx}'] = arr(7)
+                if kind == 'write-missing':
+                    del d['RPM']
+                owned_dicts.append((d, [(key, id(v)) for key, v in d.items()]))
+                st, err = call(df.write, f'{tmp}/seq.dlis', data=d, output_chunk_size=2**20)
+                steps.append(f'write(data=dict#{len(owned_dicts) - 1} with keys {list(d)}) -> {st}')
+            check(steps[-1])
+        case = {'index': i, 'channels_created_with_data': inline_first, 'steps': steps}
+        chk.case('sequence', nontrivial_key=('seq', i), sample={'steps': steps[:4]})
+        if problems:
+            chk.fail('caller-data-altered-by-later-call', case, '; '.join(problems[:3]))
+
+
 def run(tier):
     chk = Check('C19', tier)
     chk.rule = ('specifications with all source kinds (inline, dict, structured incl. the no-copy path, HDF5), 8 dtypes, both '
@@ -92,6 +149,7 @@ def run(tier):
                 chk.fail('caller-dict-altered', case, 'the dict passed as data has different keys or values after the write')
             if h5_before is not None and h5_before != hashlib.sha256(open(b.data, 'rb').read()).hexdigest():
                 chk.fail('caller-hdf5-altered', case, 'the HDF5 source file changed on disk')
+        sequence_stream(chk, R, tmp, 60 if tier == 'quick' else 600)
     finally:
         shutil.rmtree(tmp, ignore_errors=True)
     return finish(chk, bres, THEOREMS,
